@@ -298,9 +298,10 @@ def document(cls, hist):
 NUMBERED = ('chapter', 'section', 'subsection', 'subsubsection', 'paragraph', 'equation', 'caption', 'thmenv', 'item')
 
 
-def observe(cls, numdepth, hist):
+def observe(cls, numdepth, hist, reset=True):
     from plasTeX.TeX import TeX
-    state.reset()
+    if reset:
+        state.reset()
     with core.time_limit(20):
         tex = TeX()
         doc = tex.ownerDocument
@@ -415,7 +416,45 @@ def expand_chunk(hists):
     return rep, children
 
 
+SEQ_HISTS = [('sec', 'sub', 'eq', 'thm', 'prop'), ('sec', 'eq', 'app', 'sub', 'eq'), ('sec', 'sub', 'fig', 'eqa')]
+
+
+def judge_after(first_cls, cls, hist):
+    """a document of class first_cls is processed first, then (same process, nothing reset in between) the document under
+    test: its numbers must be those it gets alone"""
+    warm = ('ch', 'sec', 'eq') if first_cls == 'book' else ('sec', 'sub', 'eq')
+    try:
+        observe(first_cls, None, warm)
+        obs, ocnt = observe(cls, None, hist, reset=False)
+    except Exception as e:
+        return 'violation', None, 'raises %s: %s' % (type(e).__name__, str(e)[:100])
+    exp, ecnt, m = expected(cls, None, hist)
+    ocnt_c = {k: v for k, v in ocnt.items() if k in ecnt}
+    if obs == exp and ocnt_c == ecnt:
+        return 'ok', (exp, ecnt), (obs, ocnt_c)
+    return 'violation', (exp, ecnt), (obs, ocnt_c)
+
+
+def run_block_after(block):
+    rep = core.Report()
+    for first_cls in (block[1],):
+        for cls in ('article', 'book'):
+            for hist in SEQ_HISTS:
+                h = (('ch',) + hist) if cls == 'book' else hist
+                v, exp, obs = judge_after(first_cls, cls, h)
+                rep.case(key=('after', first_cls, cls, h), nontrivial=True, outcome=repr(obs)[:300])
+                rep.count('after_another_document')
+                if v != 'ok':
+                    rep.violation({'kind': 'after', 'first': first_cls, 'cls': cls, 'hist': list(h)}, exp, obs,
+                                  'a %s document was processed before this %s document in the same interpreter: %s' % (
+                                      first_cls, cls, document(cls, h)))
+    return rep.close_block()
+
+
 def replay(case):
+    if case['kind'] == 'after':
+        v, exp, obs = judge_after(case['first'], case['cls'], tuple(case['hist']))
+        return {'verdict': v, 'expected': exp, 'observed': obs, 'detail': 'after a %s document' % case['first']}
     if case['kind'] == 'repr':
         r = run_block_repr((case['n'], case['n'] + 1, case['via_parser']))
         if r.violations:
@@ -442,6 +481,7 @@ def run(tier, seed, rep):
     top = 5000
     blocks += [(lo, min(lo + step, top), True) for lo in range(1, top, step)]
     core.merge_all(run_block_repr, core.rotate(blocks, seed), rep)
+    core.merge_all(run_block_after, [('after', c) for c in ('article', 'report', 'book')], rep)
     depth = 4 if quick else 6
     global DEEP_FROM
     DEEP_FROM = 3 if quick else 4
